@@ -515,7 +515,7 @@ func (g *G) mapObjectResult(meth *m.Method) {
 	r := &m.Response{Status: rapid.SampledFrom(resultStatuses).Draw(t, "status")}
 	used := map[string]bool{}
 	var bodyFields []string
-	recursiveResult := meth.Result.Type.Kind == m.User && isRecursiveType(g.d, meth.Result.Type.User)
+	recursiveResult := meth.Result.Type.Kind == m.User && isResultType && isRecursiveType(g.d, meth.Result.Type.User)
 	for _, f := range fields {
 		_, _, canHeader, canCookie := g.mappable(f.Attr)
 		if recursiveResult && g.avoid("C03-recursive-result-header-attr-lost-in-nested") {
